@@ -100,6 +100,7 @@ class State:
         self.errstate = None
         self.labels = {}
         self.fused = []
+        self.code = []              # emitted instruction stream of this path (ops and summary blobs)
         self.emitted = False
 
     def clone(self):
@@ -120,6 +121,7 @@ class State:
         s.facts = dict(self.facts)
         s.emits = list(self.emits)
         s.fused = list(self.fused)
+        s.code = [dict(c) for c in self.code]
         s.fn_entries = dict(self.fn_entries)
         s.labels = {k: copy.copy(v) for k, v in self.labels.items()}
         s.cur = dict(self.cur, operands=list(self.cur['operands'])) if self.cur else None
